@@ -253,7 +253,7 @@ mod xen {
                 let hi = lo + n as u64;
                 let mut page = lo / PAGE * PAGE;
                 while page < hi {
-                    let covered = log.iter().any(|e| matches!(e, DevEvent::MapGrant { index, count, ok: true, .. } if *index <= page && page < index + *count as u64 * PAGE));
+                    let covered = log.iter().any(|e| matches!(e, DevEvent::MapGrant { first_ref, count, ok: true, .. } if *first_ref as u64 * PAGE <= page && page < (*first_ref as u64 + *count as u64) * PAGE));
                     if !covered {
                         bad = Some(("window-does-not-cover-the-access", format!("bytes [{:#x},+{}) touched, page {:#x} was never mapped; device log {:?}", off, n, page, log)));
                         break;
@@ -281,8 +281,93 @@ mod xen {
         Some(after)
     }
 
+    /// Environment faults with deviation bound 1: the operation is run once to count the mmap calls
+    /// and map-grant requests it makes, then once per call with exactly that call failing. A
+    /// failed access may report an error (or panic), but nothing may stay mapped, neither in the
+    /// process nor in the device, and the device protocol must be respected.
+    fn faults(ctx: &Ctx, r: &Region, state: &[u8], op: &Op, tag: u8) -> u64 {
+        use crate::interpose::{fail_fd_mmap_in, start_recording, stop_recording, MapEvent};
+        let key_base = format!("C17/xen/{}/{}", r.kind, op.name());
+        let vs = match r.reg.as_volatile_slice() {
+            Ok(v) => v,
+            Err(_) => return 0,
+        };
+        r.set_state(state);
+        r.emu.take_log();
+        start_recording();
+        let _ = crate::crash::quiet_unwind(|| c04::run_op(&vs, op, tag));
+        let maplog = stop_recording();
+        let n_mmap = maplog.iter().filter(|e| matches!(e, MapEvent::Map { fd, .. } if *fd >= 0)).count();
+        let n_grant = r.emu.take_log().iter().filter(|e| matches!(e, DevEvent::MapGrant { .. })).count();
+        r.emu.state.borrow_mut().live.clear();
+        r.emu.state.borrow_mut().refs.clear();
+        r.emu.state.borrow_mut().protocol_errors.clear();
+        let mut runs = 0;
+        for (what, n) in [("mmap", n_mmap), ("map-grant", n_grant)] {
+            for k in 0..n {
+                runs += 1;
+                ctx.case(true);
+                r.set_state(state);
+                r.emu.take_log();
+                start_recording();
+                if what == "mmap" {
+                    fail_fd_mmap_in(k as i64);
+                } else {
+                    r.emu.state.borrow_mut().fail_map_in = Some(k as u32);
+                }
+                let res = crate::crash::quiet_unwind(|| c04::run_op(&vs, op, tag));
+                fail_fd_mmap_in(-1);
+                r.emu.state.borrow_mut().fail_map_in = None;
+                let maplog = stop_recording();
+                let devlog = r.emu.take_log();
+                let rp = || json!({"region": r.kind, "region_len": r.len, "op": op.to_json(), "tag": tag, "fail": what, "nth": k});
+                let mut bad: Option<(&str, String)> = None;
+                // every successful mmap of the run has its munmap
+                let mut open: Vec<(usize, usize)> = Vec::new();
+                for e in &maplog {
+                    match e {
+                        MapEvent::Map { addr, len, ok: true, fd, .. } if *fd >= 0 => open.push((*addr, *len)),
+                        MapEvent::Unmap { addr, len, ret: 0 } => {
+                            if let Some(p) = open.iter().position(|w| w.0 == *addr && (w.1 + 4095) / 4096 == (*len + 4095) / 4096) {
+                                open.remove(p);
+                            }
+                        }
+                        _ => {}
+                    }
+                }
+                if !open.is_empty() {
+                    bad = Some(("mapping-left-after-failed-access", format!("{:x?}", open)));
+                }
+                if !r.emu.live().is_empty() {
+                    bad = Some(("window-left-after-failed-access", format!("the {} call number {} failed; the device still holds {:x?}; device log {:x?}", what, k, r.emu.live(), devlog)));
+                    r.emu.state.borrow_mut().live.clear();
+                    r.emu.state.borrow_mut().refs.clear();
+                }
+                let pe = std::mem::take(&mut r.emu.state.borrow_mut().protocol_errors);
+                if !pe.is_empty() && bad.is_none() {
+                    bad = Some(("device-protocol-after-failed-access", format!("{:?}", pe)));
+                }
+                if let Ok(res) = &res {
+                    // a fault may not be reported as a complete success with wrong data
+                    let after = r.state();
+                    let exp = c04::model_op(state, 0, op, tag);
+                    if exp.out.contains(&res.out) && !matches!(res.out, Out::Err | Out::Refused | Out::Partial(..)) && !exp.mem.iter().any(|m| *m == after) && bad.is_none() {
+                        bad = Some(("success-reported-after-failed-mapping", format!("returned {:?} but guest memory is not what the operation should leave", res.out)));
+                    }
+                }
+                if let Some((k2, d)) = bad {
+                    let key = format!("{}/{}", key_base, k2);
+                    let rpv = if ctx.has_failed(&key) { serde_json::Value::Null } else { rp() };
+                    ctx.fail(&key, &format!("{:?}: {}", op, d), rpv);
+                }
+            }
+        }
+        runs
+    }
+
     pub fn run(ctx: &Ctx, thorough: bool) {
         let emu = Emu::new(64);
+        let mut fault_runs = 0u64;
         let mut windows_total = 0u64;
         for (kind, pages) in [("grant-on-demand", 2usize), ("grant-on-demand", 3), ("grant-in-advance", 2), ("foreign", 2), ("unix", 2)] {
             let len = pages * 4096;
@@ -311,6 +396,11 @@ mod xen {
             let all: Vec<Op> = if kind == "grant-on-demand" { all } else { all.into_iter().step_by(if thorough { 1 } else { 5 }).collect() };
             for (k, op) in all.iter().enumerate() {
                 step(ctx, &r, &init, op, (k % 90) as u8 + 1, &[]);
+            }
+            if kind == "grant-on-demand" {
+                for (k, op) in all.iter().enumerate().filter(|(k, _)| thorough || pages == 2 || k % 4 == 0) {
+                    fault_runs += faults(ctx, &r, &init, op, (k % 90) as u8 + 1);
+                }
             }
             // accessors that hand out plain references: nothing can keep a window mapped for them
             if kind == "grant-on-demand" && pages == 2 {
@@ -370,6 +460,7 @@ mod xen {
             }
         }
         ctx.extra("max_simultaneous_windows_sum", json!(windows_total));
+        ctx.extra("injected_fault_runs", json!(fault_runs));
         ctx.sample(json!({"region": "grant-on-demand, 2 pages", "op": "WriteObj { ty: U64, off: 4092 }", "required": "windows requested from the emulated gntdev cover guest pages 8 and 9; data lands at file offsets 0x8ffc..0x9004; no window left"}));
     }
 }
@@ -377,7 +468,7 @@ mod xen {
 pub fn run(tier: Tier, replay: Option<String>) -> i32 {
     let ctx = crate::new_ctx("C17", tier, "model_checking", &replay);
     let build = if cfg!(feature = "xen") { "xen" } else { "std" };
-    ctx.set_rule("(a) guards: every accessor kind (VolatileSlice at offsets 0..=16 x lengths 0..=16; VolatileRef and VolatileArrayRef for 23 element types covering every size 1..16, offsets 0..=16, element counts 0..=9; to_slice and ref_at derivatives): ptr_guard/ptr_guard_mut len == bytes covered and pointer == first byte. (b) Xen build, emulated gntdev/privcmd (link-time interposed ioctl + mmap): on on-demand grant regions of 2 and 3 pages every access operation of the container alphabet at offsets {0,1,4090..4100,8190..8193,last} and lengths crossing 0, 1 and 2 page boundaries, 12 element types, arrays whose byte length exceeds their element count, and all histories of up to 3 operations over a boundary alphabet (state = region contents, carried over): each operation is first probed in a forked child (a dereference outside any window faults), then executed; the windows requested from the device must cover every page of the bytes the reference model says are touched, the data must be right (read back from the backing file), and no window may remain. Advance-mapped grant, foreign and UNIX regions: same operations, no device request allowed. States/transitions: one transition per operation executed on the real region.");
+    ctx.set_rule("(a) guards: every accessor kind (VolatileSlice at offsets 0..=16 x lengths 0..=16; VolatileRef and VolatileArrayRef for 23 element types covering every size 1..16, offsets 0..=16, element counts 0..=9; to_slice and ref_at derivatives): ptr_guard/ptr_guard_mut len == bytes covered and pointer == first byte. (b) Xen build, emulated gntdev/privcmd (link-time interposed ioctl + mmap): on on-demand grant regions of 2 and 3 pages every access operation of the container alphabet at offsets {0,1,4090..4100,8190..8193,last} and lengths crossing 0, 1 and 2 page boundaries, 12 element types, arrays whose byte length exceeds their element count, and all histories of up to 3 operations over a boundary alphabet (state = region contents, carried over): each operation is first probed in a forked child (a dereference outside any window faults), then executed; the windows requested from the device must cover every page of the bytes the reference model says are touched, the data must be right (read back from the backing file), and no window may remain. Environment faults, deviation bound 1: every operation is re-run once per mmap call and once per map-grant request it makes with exactly that call failing; afterwards no process mapping and no device window may remain, the device protocol must have been respected (the emulated gntdev hands out first-fit indexes unrelated to guest addresses and serves mmap only for an exactly matching live window), and a complete success may not be reported with wrong data. Advance-mapped grant, foreign and UNIX regions: same operations, no device request allowed. States/transitions: one transition per operation executed on the real region.");
     ctx.assume("gntdev/privcmd are emulated at the ioctl contract level (grant reference r = file offset r*4096)");
     if ctx.replay_of.is_some() {
         println!("replay: deterministic enumeration; re-running it");
